@@ -619,6 +619,272 @@ theorem revoke_single (st : State) (id et : Str) (tail : List Str) (ok : Bool)
         simp only [canRead, hf, hadm', hp, hro, hed] at hr
         cases h1 : hasRole u readOnlyRoles <;> cases h2 : hasRole u editorRoles <;> simp_all
 
+/-! ### an explicit denial stays until somebody grants again -/
+
+def DeniedL (us : List User) (id et : Str) : Prop :=
+  ∃ u, us.find? (fun x => x.id == id) = some u ∧ hasRole u adminRoles = false ∧
+    findPerm u.perms et = some ⟨false, false⟩
+
+def Denied (st : State) (id et : Str) : Prop := DeniedL st.users id et
+
+theorem findPerm_putPerm_other (ps : List (Str × Perm)) (et' et : Str) (p : Perm) (hne : et' ≠ et) :
+    findPerm (putPerm ps et' p) et = findPerm ps et := by
+  unfold findPerm
+  congr 1
+  have hne' : (et' == et) = false := by simpa using hne
+  induction ps with
+  | nil => simp only [putPerm]; rw [List.find?_cons_of_neg (by simpa using hne)]
+  | cons x xs ih =>
+    by_cases hx : (x.1 == et') = true
+    · have hx' : x.1 = et' := by simpa using hx
+      have hxe : (x.1 == et) = false := by rw [hx']; exact hne'
+      simp only [putPerm, hx, ↓reduceIte]
+      rw [List.find?_cons_of_neg (by simpa using hne), List.find?_cons_of_neg (by simp [hxe])]
+    · have hx' : (x.1 == et') = false := by simpa using hx
+      simp only [putPerm, hx', Bool.false_eq_true, ↓reduceIte]
+      by_cases hy : (x.1 == et) = true
+      · rw [List.find?_cons_of_pos (by exact hy), List.find?_cons_of_pos (by exact hy)]
+      · rw [List.find?_cons_of_neg (by simpa using hy), List.find?_cons_of_neg (by simpa using hy)]
+        exact ih
+
+theorem findPerm_filter_other (ps : List (Str × Perm)) (et' et : Str) (hne : et' ≠ et) :
+    findPerm (ps.filter (fun p => !(p.1 == et'))) et = findPerm ps et := by
+  unfold findPerm
+  congr 1
+  have hne' : (et' == et) = false := by simpa using hne
+  induction ps with
+  | nil => rfl
+  | cons x xs ih =>
+    by_cases hx : (x.1 == et') = true
+    · have hx' : x.1 = et' := by simpa using hx
+      have hxe : (x.1 == et) = false := by rw [hx']; exact hne'
+      rw [List.filter_cons_of_neg (by simp [hx]), List.find?_cons_of_neg (by simp [hxe])]
+      exact ih
+    · have hx' : (x.1 == et') = false := by simpa using hx
+      rw [List.filter_cons_of_pos (by simp [hx'])]
+      by_cases hy : (x.1 == et) = true
+      · rw [List.find?_cons_of_pos (by exact hy), List.find?_cons_of_pos (by exact hy)]
+      · rw [List.find?_cons_of_neg (by simpa using hy), List.find?_cons_of_neg (by simpa using hy)]
+        exact ih
+
+theorem deniedL_put (us : List User) (v w : User) (id et : Str)
+    (hw : us.find? (fun x => x.id == v.id) = some w)
+    (hroles : v.roles = w.roles)
+    (hkeep : v.id = id → findPerm w.perms et = some ⟨false, false⟩ → findPerm v.perms et = some ⟨false, false⟩)
+    (h : DeniedL us id et) : DeniedL (putUser us v) id et := by
+  obtain ⟨u, hu, ha, hp⟩ := h
+  by_cases hid : id = v.id
+  · subst hid
+    rw [hu] at hw
+    cases hw
+    refine ⟨v, find_putUser_same us v, ?_, hkeep rfl hp⟩
+    unfold hasRole at ha ⊢
+    rw [hroles]; exact ha
+  · exact ⟨u, by rw [find_putUser_other us v id hid]; exact hu, ha, hp⟩
+
+theorem deniedL_put_new (us : List User) (v : User) (id et : Str)
+    (hnew : us.find? (fun x => x.id == v.id) = none) (h : DeniedL us id et) :
+    DeniedL (putUser us v) id et := by
+  obtain ⟨u, hu, ha, hp⟩ := h
+  have hid : id ≠ v.id := by
+    intro e; subst e; rw [hu] at hnew; cases hnew
+  exact ⟨u, by rw [find_putUser_other us v id hid]; exact hu, ha, hp⟩
+
+theorem denied_createUser (alnum : Char → Bool) (st : State) (id' key : Str) (roles : List Str) (id et : Str)
+    (h : Denied st id et) : Denied (createUser alnum st id' key roles).2 id et := by
+  unfold createUser
+  split
+  · exact h
+  · exact h
+  · split
+    · exact h
+    · cases hf : findUser st id' with
+      | some x => simp only [hf]; exact h
+      | none =>
+        simp only [hf]
+        exact deniedL_put_new st.users _ id et (by simpa [findUser] using hf) h
+
+theorem denied_revokeKey (st : State) (id' id et : Str) (h : Denied st id et) :
+    Denied (revokeKey st id').2 id et := by
+  unfold revokeKey
+  cases hf : findUser st id' with
+  | none => simp only [hf]; exact h
+  | some w =>
+    simp only [hf]
+    have hwid := (findUser_some hf).2
+    refine deniedL_put st.users _ w id et ?_ rfl (fun _ hp => hp) h
+    show st.users.find? (fun x => x.id == w.id) = some w
+    rw [hwid]; exact hf
+
+theorem denied_setPermission (st : State) (id' et' : Str) (p : Perm) (id et : Str)
+    (hok : ¬ (id' = id ∧ et' = et) ∨ p = ⟨false, false⟩) (h : Denied st id et) :
+    Denied (setPermission st id' et' p).2 id et := by
+  unfold setPermission
+  cases hf : findUser st id' with
+  | none => simp only [hf]; exact h
+  | some w =>
+    simp only [hf]
+    have hwid := (findUser_some hf).2
+    refine deniedL_put st.users _ w id et ?_ rfl ?_ h
+    · show st.users.find? (fun x => x.id == w.id) = some w
+      rw [hwid]; exact hf
+    · intro hvid hp
+      have hvid' : id' = id := by rw [← hwid]; exact hvid
+      by_cases he : et' = et
+      · rcases hok with hno | hpp
+        · exact absurd ⟨hvid', he⟩ hno
+        · subst he; rw [hpp]; exact findPerm_putPerm_same _ _ _
+      · show findPerm (putPerm w.perms et' p) et = _
+        rw [findPerm_putPerm_other _ _ _ _ he]; exact hp
+
+theorem denied_dropPermission (st : State) (id' et' : Str) (id et : Str)
+    (hok : ¬ (id' = id ∧ et' = et)) (h : Denied st id et) :
+    Denied (dropPermission st id' et').2 id et := by
+  unfold dropPermission
+  cases hf : findUser st id' with
+  | none => simp only [hf]; exact h
+  | some w =>
+    simp only [hf]
+    have hwid := (findUser_some hf).2
+    refine deniedL_put st.users _ w id et ?_ rfl ?_ h
+    · show st.users.find? (fun x => x.id == w.id) = some w
+      rw [hwid]; exact hf
+    · intro hvid hp
+      have hvid' : id' = id := by rw [← hwid]; exact hvid
+      have he : et' ≠ et := fun he => hok ⟨hvid', he⟩
+      show findPerm (w.perms.filter (fun p => !(p.1 == et'))) et = _
+      rw [findPerm_filter_other _ _ _ he]; exact hp
+
+theorem existingPerm_denied (st : State) (id et : Str) (h : Denied st id et) :
+    existingPerm st id et = ⟨false, false⟩ := by
+  obtain ⟨u, hu, _, hp⟩ := h
+  have : findUser st id = some u := hu
+  simp [existingPerm, this, hp]
+
+theorem denied_grantLoop (want : Perm) (user id et : Str) : ∀ (ets : List Str) (st : State),
+    (user = id → et ∉ ets) → Denied st id et → Denied (grantLoop st want user ets).2 id et := by
+  intro ets
+  induction ets with
+  | nil => intro st _ h; exact h
+  | cons e ets ih =>
+    intro st hno h
+    have hone : Denied (grantOne st want user e).2 id et := by
+      refine denied_setPermission st user e _ id et (Or.inl ?_) h
+      rintro ⟨hu, he⟩
+      exact hno hu (by simp [he])
+    have hno' : user = id → et ∉ ets := fun hu hm => hno hu (by simp [hm])
+    unfold grantLoop
+    split
+    · exact h
+    · cases hsp : grantOne st want user e with
+      | mk r st' =>
+        rw [hsp] at hone
+        cases r <;> first | exact ih st' hno' hone | exact hone
+
+theorem denied_revokeLoop (rr rw : Bool) (user id et : Str) : ∀ (ets : List Str) (st : State),
+    Denied st id et → Denied (revokeLoop st rr rw user ets).2 id et := by
+  intro ets
+  induction ets with
+  | nil => intro st h; exact h
+  | cons e ets ih =>
+    intro st h
+    have hone : Denied (revokeOne st rr rw user e).2 id et := by
+      by_cases hue : user = id ∧ e = et
+      · obtain ⟨hu, he⟩ := hue
+        subst hu; subst he
+        refine denied_setPermission st user e _ user e (Or.inr ?_) h
+        rw [existingPerm_denied st user e h]
+        simp
+      · exact denied_setPermission st user e _ id et (Or.inl hue) h
+    unfold revokeLoop
+    cases hsp : revokeOne st rr rw user e with
+    | mk r st' =>
+      rw [hsp] at hone
+      cases r <;> first | exact ih st' hone | exact hone
+
+theorem denied_exec (alnum : Char → Bool) (st : State) (c : Cmd) (id et : Str)
+    (hno : regrants id et (.cmd c) = false) (h : Denied st id et) :
+    Denied (exec alnum st c).2 id et := by
+  by_cases hc : (match c with | .createUser .. | .revokeKey _ | .grant .. | .revoke .. => False | _ => True)
+  · show DeniedL _ id et
+    rw [(exec_users_simple alnum st c hc).1]
+    exact h
+  · cases c <;> simp only [not_true_eq_false, not_false_eq_true] at hc
+    · rename_i a b c
+      have := denied_createUser alnum st a b c id et h
+      simp only [exec]
+      cases hsp : createUser alnum st a b c with
+      | mk r st' => rw [hsp] at this; cases r <;> exact this
+    · rename_i a
+      have := denied_revokeKey st a id et h
+      simp only [exec]
+      cases hsp : revokeKey st a with
+      | mk r st' => rw [hsp] at this; cases r <;> exact this
+    · rename_i ps ets u
+      simp only [exec]
+      split
+      · exact h
+      · refine denied_grantLoop _ u id et ets st ?_ h
+        intro hu hm
+        subst hu
+        simp [regrants, hm] at hno
+    · rename_i ps ets u
+      exact denied_revokeLoop _ _ u id et ets st h
+
+theorem denied_applyOne (alnum : Char → Bool) (cfg : Cfg) (st : State) (l : Later) (id et : Str)
+    (hno : regrants id et l = false) (h : Denied st id et) : Denied (applyOne alnum cfg st l) id et := by
+  cases l with
+  | cmd c => exact denied_exec alnum st c id et hno h
+  | mint now user tok => exact h
+  | mk a b c => exact denied_createUser alnum st a b c id et h
+  | setPerm a b p =>
+    refine denied_setPermission st a b p id et (Or.inl ?_) h
+    rintro ⟨h1, h2⟩; subst h1; subst h2; simp [regrants] at hno
+  | dropPerm a b =>
+    refine denied_dropPermission st a b id et ?_ h
+    rintro ⟨h1, h2⟩; subst h1; subst h2; simp [regrants] at hno
+  | revKey a => exact denied_revokeKey st a id et h
+
+theorem denied_applyLater (alnum : Char → Bool) (cfg : Cfg) (id et : Str) : ∀ (ls : List Later) (st : State),
+    (∀ l ∈ ls, regrants id et l = false) → Denied st id et → Denied (applyLater alnum cfg st ls) id et := by
+  intro ls
+  induction ls with
+  | nil => intro st _ h; exact h
+  | cons l ls ih =>
+    intro st hno h
+    exact ih _ (fun x hx => hno x (by simp [hx])) (denied_applyOne alnum cfg st l id et (hno l (by simp)) h)
+
+theorem denied_forbids (st : State) (id et : Str) (tail : List Str) (ok : Bool)
+    (hby : id ≠ bypassUserId) (h : Denied st id et) :
+    authorize st true (some id) (.query et tail) = .forbidden ∧
+    authorize st true (some id) (.store et ok) = .forbidden := by
+  obtain ⟨u, hu, ha, hp⟩ := h
+  have hf : findUser st id = some u := hu
+  have hR : canRead st id et = false := by simp [canRead, hf, ha, hp]
+  have hW : canWrite st id et = false := by simp [canWrite, hf, ha, hp]
+  rw [authorize_query, authorize_store]
+  exact ⟨checkId_forbidden id _ hby hR, checkId_forbidden id _ hby hW⟩
+
+theorem revoke_all_denied (st : State) (id et : Str)
+    (hex : (findUser st id).isSome = true) (hna : isAdmin st id = false) :
+    Denied (revokeLoop st true true id [et]).2 id et := by
+  cases hu : findUser st id with
+  | none => simp [hu] at hex
+  | some u =>
+    have hadm : hasRole u adminRoles = false := by simpa [isAdmin, hu] using hna
+    have hf : findUser (revokeLoop st true true id [et]).2 id = some (revokedUser u et true true) :=
+      findUser_after_put st id u (revokedUser u et true true) hu rfl _ (revokeOne_state st true true id et u hu)
+    exact ⟨_, hf, hadm, by simp [revokedUser, findPerm_putPerm_same]⟩
+
+theorem revoked_permission_stays (alnum : Char → Bool) (cfg : Cfg) (st : State) (id et : Str)
+    (later : List Later) (tail : List Str) (ok : Bool)
+    (hex : (findUser st id).isSome = true) (hna : isAdmin st id = false) (hby : id ≠ bypassUserId)
+    (hno : ∀ l ∈ later, regrants id et l = false) :
+    authorize (applyLater alnum cfg (revokeLoop st true true id [et]).2 later) true (some id) (.query et tail) = .forbidden ∧
+    authorize (applyLater alnum cfg (revokeLoop st true true id [et]).2 later) true (some id) (.store et ok) = .forbidden :=
+  denied_forbids _ id et tail ok hby
+    (denied_applyLater alnum cfg id et later _ hno (revoke_all_denied st id et hex hna))
+
 /-! ### hex tokens and payload text -/
 
 theorem isHex_brace : isHex '}' = false := by decide
@@ -763,6 +1029,18 @@ theorem tokensHex_applyLater (alnum : Char → Bool) (cfg : Cfg) : ∀ (st : Sta
   | cons l ls ih =>
     intro h hl
     exact ih _ (tokensHex_applyOne alnum cfg st l h (hl l (by simp))) (fun x hx => hl x (by simp [hx]))
+
+/-! ### gate + dispatcher -/
+
+theorem dispatch_200 (alnum : Char → Bool) (st st' : State) (mgr : Bool) (uid : Option Str) (c : Cmd)
+    (h : dispatch alnum st mgr uid c = (.s200, st')) : authorize st mgr uid c = .proceed := by
+  unfold dispatch at h
+  cases ha : authorize st mgr uid c with
+  | proceed => rfl
+  | crash => cases c <;> simp only [ha] at h <;> (try split at h) <;> simp at h
+  | unauthorized => cases c <;> simp only [ha] at h <;> (try split at h) <;> simp at h
+  | forbidden => cases c <;> simp only [ha] at h <;> (try split at h) <;> simp at h
+  | internal => cases c <;> simp only [ha] at h <;> (try split at h) <;> simp at h
 
 /-! ### the other front ends -/
 
